@@ -6,6 +6,7 @@ import vlib
 from vlib import log
 
 FAMILY = "QBFT"
+MAX_TIMEOUTS, MAX_EVENTS = 7, 140
 NT_TMPL = open(os.path.join(vlib.SPECS, FAMILY, "QBFTNodeTrace.cfg.tmpl")).read()
 
 
@@ -37,11 +38,11 @@ def node_traces(t):
                 if (to is None or p in to) and m["value"] == d["v"] and m["src"] != p and \
                         ((m["type"] in ("P", "C") and m["round"] == d["round"]) or m["type"] == "D") and m not in cands:
                     cands.append(m)
-        maxr = max([x["m"]["round"] for x in s["msgs"]] + [e["to"] for e in rounds] + [1]) + 1
+        maxr = max([x["m"]["round"] for x in s["msgs"]] + [e["new"] for e in rounds] + [1]) + 1
         leads = any((r["inst"] + k) % r["n"] == p for k in range(1, maxr + 1))
         nt = [{"ev": "Reset", "eagerinput": not leads, "sid": r.get("sid", 0), "family": r.get("family"), "n": r["n"], "inst": r["inst"], "p": p,
                "input": inp[0] if inp else 0, "timeouts": sum(1 for e in rounds if e["rule"] == "round_timeout"),
-               "lastround": rounds[-1]["to"] if rounds else 1, "cands": cands[:20]}]
+               "lastround": rounds[-1]["new"] if rounds else 1, "cands": cands[:20]}]
         nt += [{"ev": "Deliver", "m": x["m"]} for x in s["msgs"]]
         nt.append({"ev": "Final", "decided": bool(dec), "v": dec[0]["v"] if dec else 0, "round": dec[0]["round"] if dec else 0})
         out.append(nt)
@@ -86,10 +87,16 @@ def mutators():
         t[-1]["v"] = 1 + (t[-1]["v"] % t[0]["n"])
         return t
 
-    def phantom_timeout(t):
-        if not t[-1]["decided"]:      # (the count is only compared for a member that ran to its decision)
+    def missing_timeout(t):
+        # one round_timeout less than the member's own ROUND-CHANGEs need (each of them stems from a timeout here)
+        own_rc = sum(1 for e in t if e.get("ev") == "Deliver" and e["m"]["src"] == t[0]["p"] and e["m"]["type"] == "RC")
+        if not t[-1]["decided"] or t[0]["timeouts"] < 1 or own_rc != t[0]["timeouts"]:
             return None
-        t[0]["timeouts"] += 1
+        # fewer than f+1 foreign ROUND-CHANGE sources in the whole transcript: an f+1 jump cannot explain it either
+        srcs = {e["m"]["src"] for e in t if e.get("ev") == "Deliver" and e["m"]["type"] == "RC" and e["m"]["src"] != t[0]["p"]}
+        if len(srcs) >= (t[0]["n"] - 1) // 3 + 1:
+            return None
+        t[0]["timeouts"] -= 1
         return t
 
     def own_rc_round(t):
@@ -100,18 +107,25 @@ def mutators():
         return t
     return [("own COMMIT carries another value", own_commit_value), ("own PREPARE without the PRE-PREPARE that causes it", own_prepare_uncaused),
             ("own COMMIT without a quorum of PREPAREs", lost_quorum), ("subscriber saw another value", other_decision),
-            ("one logged timeout too many", phantom_timeout), ("own ROUND-CHANGE for another round", own_rc_round)]
+            ("one logged timeout less than the own ROUND-CHANGEs need", missing_timeout), ("own ROUND-CHANGE for another round", own_rc_round)]
 
 
 def validate(o, traces, schedules):
-    nts, origin = [], []
+    nts, origin, skipped = [], [], 0
     for ti, t in enumerate(traces):
         for nt in node_traces(t):
+            # TLC places the timeouts itself: a member that ran through many rounds (a run that does not terminate - which
+            # the cluster trace spec reports) is not worth the search
+            if nt[0]["timeouts"] > MAX_TIMEOUTS or len(nt) > MAX_EVENTS:
+                skipped += 1
+                continue
             nts.append(nt)
             origin.append(ti)
+    if skipped:
+        o.notes.append("%d member transcripts with more than %d timeouts / %d entries not validated" % (skipped, MAX_TIMEOUTS, MAX_EVENTS))
     if not nts:
         return
-    v = vlib.validate_traces(o.pid, FAMILY, "QBFTNodeTrace", cfg_node, nts, chunk=60, timeout=600)
+    v = vlib.validate_traces(o.pid, FAMILY, "QBFTNodeTrace", cfg_node, nts, chunk=60, timeout=300)
     o.traces += len(nts)
     o.trace_events += sum(len(t) for t in nts)
     o.trace_states += v.states
@@ -136,7 +150,7 @@ def validate(o, traces, schedules):
         ti, p = origin[k], nts[k][0]["p"]
         sid = traces[ti][0].get("sid", ti)
         sched = schedules[sid]
-        t2, _, _ = vlib.run_schedules(o.pid, "conscluster", "TestExec", [sched] * 4, tag="cluster_re")
+        t2, _, _ = vlib.run_schedules(o.pid, "conscluster", "TestExec", [sched] * 4, tag="member_re")
         n2 = [nt for t in t2 for nt in node_traces(t) if nt[0]["p"] == p]
         v2 = vlib.validate_traces(o.pid, FAMILY, "QBFTNodeTrace", cfg_node_wide, n2, timeout=600)
         if not v2.rejected:
